@@ -16,7 +16,7 @@ from pymatgen.core import Structure
 
 from .caching import weak_lru_cache
 from .metrics import TrajectoryMetrics
-from .utils import bfill, ffill, integer_remap
+from .utils import bfill, ffill
 
 if typing.TYPE_CHECKING:
     from gemdat.jumps import Jumps
@@ -544,7 +544,9 @@ def _calculate_atom_states(
         siteno, index = site_index.T
 
         if key is not None:
-            siteno = integer_remap(a=siteno, key=key, palette=np.unique(siteno))
+            # `siteno` indexes the sites of this label group; map to the global site index
+            # (remapping against np.unique(siteno) shifts indices when a group member is never visited)
+            siteno = key[siteno]
 
         atom_sites[index] = siteno
 
